@@ -118,6 +118,8 @@ class C18(Prop):
         rng = core.Rng(self.id)
         ts = self.trees(tier, rng)
         lines = ['RO ' + trees.fmt(t) for t in ts]
+        # half-width items holding values no half denotes (serializing must not "normalise" the stored value), alone and nested
+        for b in trees.ODD_HALF_BITS: lines += ['RO h(%d)' % b, 'RO h!(%d)' % b, 'RO A[u8(1),h(%d)]' % b, 'RO G(2,G(3,h(%d)))' % b]
         fails = []
         for kind in ('asan', 'o0', 'o2'):
             hb = core.build_harness(kind)
@@ -134,6 +136,9 @@ class C18(Prop):
                 e = trees.enc(t)
                 exp = '%d %s intact=1' % (len(e), e.hex() or '-')
                 if o != exp: fails.append({'input': l + ' @' + kind, 'expected': exp[:300], 'observed': o[:300], 'why': 'read-only battery changed the tree or produced different bytes'})
+            for l, o in zip(lines[len(ts):], out[len(ts):]):
+                ctx.count(l + '@' + kind, o); ctx.bump(kind + '_odd_half')
+                if not o.endswith('intact=1'): fails.append({'input': l + ' @' + kind, 'expected': '... intact=1', 'observed': o[:300], 'why': 'read-only battery changed the tree'})
         return fails[:20]
 
     def replay(self, ctx, rp):
